@@ -3,7 +3,7 @@
 scratch copy of /verif and its own scratch worktree of /repo (outside both, removed afterwards), K changes at a time.
 Writes seeded/<id>/matrix.json and updates meta.json (checks_that_catch_it). /repo itself is never touched."""
 import sys, os, json, subprocess, re, shutil, argparse, concurrent.futures as cf
-V = "/verif"; SCR = f"/var/tmp/ctpg_mx_{os.getpid()}"
+V = "/verif"; SNAP = None; SCR = f"/var/tmp/ctpg_mx_{os.getpid()}"
 ALL = [f"C{i:02d}" for i in range(1, 20)]
 
 def sh(cmd, **kw):
@@ -16,7 +16,7 @@ def one(sid, checks):
     try:
         rc, out = sh(f"git -C /repo worktree add --detach {d}/repo HEAD && git -C {d}/repo apply {V}/seeded/{sid}/patch.diff")
         if rc: return sid, {"error": "patch does not apply: " + out[-300:]}
-        sh(f"rsync -a --exclude /.git --exclude /.cache --exclude /replays --exclude /evidence --exclude /seeded {V}/ {d}/verif/")
+        sh(f"rsync -a --exclude /.git --exclude /.cache --exclude /replays --exclude /evidence --exclude /seeded {SNAP}/ {d}/verif/")
         os.makedirs(f"{d}/verif/evidence", exist_ok=True)
         env = dict(os.environ, CTPG_VERIF_ROOT=f"{d}/verif", CTPG_REPO=f"{d}/repo")
         for c in checks:
@@ -48,6 +48,9 @@ def main():
     ids = a.ids or sorted(x for x in os.listdir(V + "/seeded") if os.path.exists(f"{V}/seeded/{x}/patch.diff"))
     checks = a.checks.split(",")
     os.makedirs(SCR, exist_ok=True)
+    global SNAP
+    SNAP = SCR + "/snapshot"      # the machinery as it is now: later edits under /verif do not leak into running jobs
+    sh(f"rsync -a --exclude /.git --exclude /.cache --exclude /replays --exclude /evidence --exclude /seeded {V}/ {SNAP}/")
     with cf.ThreadPoolExecutor(a.j) as ex:
         for sid, res in ex.map(lambda s: one(s, checks), ids):
             mp = f"{V}/seeded/{sid}/meta.json"
